@@ -565,6 +565,69 @@ fn arith_kernels(seed: u64) -> serde_json::Value {
     json!({"found": false, "routine": "arith_kernels", "tried": tried})
 }
 
+// C10: elementwise Add/Subtract/Multiply/MixedMultiply with NumPy broadcasting (random broadcastable shape pairs, including equal sizes with different shapes) vs. an index-by-index reference
+fn broadcast_ref(seed: u64) -> serde_json::Value {
+    let mut rng = Rng(seed.wrapping_mul(0x9E37_79B9_7F4A_7C15) | 1);
+    let sts = [BIT, UINT8, INT8, UINT16, INT32, UINT64, INT64, UINT128];
+    let mut tried = 0u64;
+    // the coordinates of flat index i in shape sh
+    fn coords(mut i: u64, sh: &[u64]) -> Vec<u64> { let mut c = vec![0; sh.len()]; for k in (0..sh.len()).rev() { c[k] = i % sh[k]; i /= sh[k]; } c }
+    // flat index in shape sh of the trailing coordinates of c, size-1 dimensions broadcast
+    fn flat(c: &[u64], sh: &[u64]) -> usize { let off = c.len() - sh.len(); let mut r = 0u64; for k in 0..sh.len() { r = r * sh[k] + if sh[k] == 1 { 0 } else { c[off + k] }; } r as usize }
+    for round in 0..60u64 {
+        let rank = 1 + (rng.next() % 3) as usize;
+        let res_shape: Vec<u64> = (0..rank).map(|_| 1 + rng.next() % 3).collect();
+        let mk = |rng: &mut Rng, force_ones: bool| -> Vec<u64> {
+            let drop = (rng.next() % (rank as u64)) as usize;   // operand may have fewer dimensions
+            res_shape[drop..].iter().map(|d| if force_ones || rng.next() % 2 == 0 { *d } else { 1 }).collect()
+        };
+        let (mut s1, mut s2) = (mk(&mut rng, false), mk(&mut rng, false));
+        if round % 4 == 0 && rank >= 2 {   // transposed singletons: equal sizes, different shapes
+            s1 = res_shape.clone(); s2 = res_shape.clone(); s1[rank - 1] = 1; for k in 0..rank - 1 { s2[k] = 1; }
+        }
+        // the result shape must be the broadcast of the two: put every result dimension into at least one operand
+        for k in 0..rank { let i1 = (k + s1.len()).checked_sub(rank); let i2 = (k + s2.len()).checked_sub(rank);
+            let has = i1.map_or(false, |i| s1[i] == res_shape[k]) || i2.map_or(false, |i| s2[i] == res_shape[k]);
+            if !has { if s1.len() < rank { s1 = res_shape.clone(); } else { s1[i1.unwrap()] = res_shape[k]; } } }
+        if s1.len() < rank && s2.len() < rank { s1 = [vec![1; rank - s1.len()], s1].concat(); let _ = &s1; for k in 0..rank { if s1[k] == 1 { s1[k] = res_shape[k]; } } }
+        let _ = mk(&mut rng, true);
+        let st = sts[(rng.next() % sts.len() as u64) as usize];
+        let bits = st.size_in_bits();
+        let mask: u128 = if bits == 128 { u128::MAX } else { (1u128 << bits) - 1 };
+        let n1: u64 = s1.iter().product(); let n2: u64 = s2.iter().product(); let nr: u64 = res_shape.iter().product();
+        let a: Vec<u128> = (0..n1).map(|_| (((rng.next() as u128) << 64) | rng.next() as u128) & mask).collect();
+        for op in ["add", "subtract", "multiply", "mixed_multiply"] {
+            if op == "mixed_multiply" && st == BIT { continue; }
+            let st2 = if op == "mixed_multiply" { BIT } else { st };
+            let mask2: u128 = if st2 == BIT { 1 } else { mask };
+            let b: Vec<u128> = (0..n2).map(|_| (((rng.next() as u128) << 64) | rng.next() as u128) & mask2).collect();
+            let (t1, t2, tr) = (array_type(s1.clone(), st), array_type(s2.clone(), st2), array_type(res_shape.clone(), st));
+            let c = match ciphercore_base::graphs::util::simple_context(|g| { let i = g.input(t1.clone())?; let j = g.input(t2.clone())?;
+                match op { "add" => i.add(j), "subtract" => i.subtract(j), "multiply" => i.multiply(j), _ => i.mixed_multiply(j) } }) { Ok(c) => c, Err(_) => continue };
+            let out_t = c.get_main_graph().unwrap().get_output_node().unwrap().get_type().unwrap();
+            if out_t != tr { continue; }   // generator produced a pair whose broadcast is another shape: skip
+            let r = random_evaluate(c.get_main_graph().unwrap(), vec![Value::from_flattened_array(&a, st).unwrap(), Value::from_flattened_array(&b, st2).unwrap()]);
+            let input = json!({"scalar_type": format!("{}", st), "op": op, "shape1": s1, "shape2": s2, "result_shape": res_shape, "a": a.iter().map(|x| x.to_string()).collect::<Vec<_>>(), "b": b.iter().map(|x| x.to_string()).collect::<Vec<_>>()});
+            let got = match r.and_then(|v| { v.check_type(tr.clone())?; v.to_flattened_array_u128(tr.clone()) }) { Ok(g) => g,
+                Err(e) => return json!({"found": true, "routine": "broadcast_ref", "property": "C10", "input": input, "expected": "a value of the inferred type", "observed": format!("error: {}", e).chars().take(300).collect::<String>(), "what": "SimpleEvaluator on broadcast elementwise arithmetic"}) };
+            if got.len() as u64 != nr {
+                return json!({"found": true, "routine": "broadcast_ref", "property": "C10", "input": input, "expected": format!("{} elements", nr), "observed": format!("{} elements", got.len()), "what": "SimpleEvaluator on broadcast elementwise arithmetic: number of result elements"});
+            }
+            for i in 0..nr {
+                tried += 1;
+                let cd = coords(i, &res_shape);
+                let (x, y) = (a[flat(&cd, &s1)], b[flat(&cd, &s2)]);
+                let want = match op { "add" => x.wrapping_add(y), "subtract" => x.wrapping_sub(y), _ => x.wrapping_mul(y) } & mask;
+                if got[i as usize] & mask != want {
+                    return json!({"found": true, "routine": "broadcast_ref", "property": "C10", "input": input, "index": i, "expected": want.to_string(), "observed": (got[i as usize] & mask).to_string(),
+                        "what": "SimpleEvaluator on elementwise arithmetic with NumPy broadcasting vs. index-by-index reference modulo 2^w"});
+                }
+            }
+        }
+    }
+    json!({"found": false, "routine": "broadcast_ref", "tried": tried})
+}
+
 // C16: all comparison operations on all operand pairs of small widths (exhaustive for w <= 5, sampled up to 11), signed and unsigned, plus Min/Max
 fn cmp_small_widths(seed: u64) -> serde_json::Value {
     use ciphercore_base::ops::comparisons::*;
@@ -1344,6 +1407,47 @@ fn longdiv_ref(seed: u64) -> serde_json::Value {
     json!({"found": false, "routine": "longdiv_ref", "tried": tried})
 }
 
+// C01: compiled Join (all four join types; keys repeated in the first table, missing partners, null rows) returns exactly the plaintext table, revealed
+fn join_ref(seed: u64) -> serde_json::Value {
+    use ciphercore_base::graphs::util::simple_context;
+    use ciphercore_base::graphs::JoinType;
+    use ciphercore_base::mpc::mpc_compiler::IOStatus;
+    use ciphercore_base::type_inference::NULL_HEADER;
+    use std::collections::HashMap;
+    let mut rng = Rng(seed | 1);
+    let mut tried = 0u64;
+    let (nx, ny) = (6u64, 3u64);
+    for jt in [JoinType::Inner, JoinType::Left, JoinType::Union, JoinType::Full] {
+        let jtc = jt.clone();
+        let c = match simple_context(|g| {
+            let null_x = g.input(array_type(vec![nx], BIT))?; let k_x = g.input(array_type(vec![nx], UINT64))?; let a_x = g.input(array_type(vec![nx], INT64))?;
+            let null_y = g.input(array_type(vec![ny], BIT))?; let k_y = g.input(array_type(vec![ny], UINT64))?; let b_y = g.input(array_type(vec![ny, 2], BIT))?; let c_y = g.input(array_type(vec![ny], INT64))?;
+            let x = g.create_named_tuple(vec![(NULL_HEADER.to_owned(), null_x), ("k".to_owned(), k_x), ("a".to_owned(), a_x)])?;
+            let y = g.create_named_tuple(vec![(NULL_HEADER.to_owned(), null_y), ("k".to_owned(), k_y), ("b".to_owned(), b_y), ("c".to_owned(), c_y)])?;
+            let mut headers = HashMap::new(); headers.insert("k".to_owned(), "k".to_owned());
+            x.join(y, jtc.clone(), headers) }) { Ok(c) => c, Err(e) => return json!({"found": false, "routine": "join_ref", "error": e.to_string()}) };
+        // Union / Full require unique keys in the first table; Inner / Left take many-to-one tables
+        let many = matches!(jt, JoinType::Inner | JoinType::Left);
+        for rep in 0..2u64 {
+            tried += 1;
+            let xk: Vec<u64> = if many { if rep == 0 { vec![7, 5, 7, 9, 5, 7] } else { vec![3, 3, 3, 8, 1, 3] } } else { vec![7, 5, 2, 9, 4, 1] };
+            let yk: Vec<u64> = if rep == 0 { vec![5, 7, 8] } else { vec![3, 9, 1] };
+            let inputs = vec![Value::from_flattened_array(&[1u64, 1, 1, if rep == 0 { 1 } else { 0 }, 1, 1], BIT).unwrap(), Value::from_flattened_array(&xk, UINT64).unwrap(), Value::from_flattened_array(&(0..nx).map(|i| rng.next() % 100 + i).collect::<Vec<u64>>(), INT64).unwrap(),
+                Value::from_flattened_array(&[1u64, 1, 1], BIT).unwrap(), Value::from_flattened_array(&yk, UINT64).unwrap(), Value::from_flattened_array(&[0u64, 1, 1, 1, 1, 0], BIT).unwrap(), Value::from_flattened_array(&[50u64, 70, 80], INT64).unwrap()];
+            let mut owners = vec![IOStatus::Party(0); 3]; owners.extend(vec![IOStatus::Party(1); 4]);
+            let r = catch_unwind(AssertUnwindSafe(|| -> Result<bool> {
+                let expected = random_evaluate(c.get_main_graph()?, inputs.clone())?;
+                let (_ctx, g) = compile_simple(&c, owners.clone(), vec![IOStatus::Party(2)])?;
+                for _ in 0..2 { if random_evaluate(g.clone(), inputs.clone())? != expected { return Ok(false); } }
+                Ok(true) }));
+            let obs = match r { Ok(Ok(true)) => continue, Ok(Ok(false)) => "the compiled join returns a different table than the plaintext join".to_owned(), Ok(Err(e)) => format!("error: {}", e), Err(_) => "panic".to_owned() };
+            return json!({"found": true, "routine": "join_ref", "property": "C01", "input": {"join_type": format!("{:?}", jt), "first_table_keys": xk, "second_table_keys": yk, "owners": "first table: party 0, second table: party 1, output: party 2"}, "observed": obs,
+                "what": "graph compiled by prepare_for_mpc_evaluation and evaluated vs. the plaintext Join"});
+        }
+    }
+    json!({"found": false, "routine": "join_ref", "tried": tried})
+}
+
 // C06 / C04: optimize_context keeps the function of the graph, every input node, and never merges or drops-by-merging PRF / Random nodes
 fn optimizer_equiv(seed: u64) -> serde_json::Value {
     use ciphercore_base::evaluators::simple_evaluator::SimpleEvaluator;
@@ -1513,6 +1617,42 @@ fn matmul_ref(seed: u64) -> serde_json::Value {
 }
 
 // C14: per-party shares reconstruct the secret, for scalars, arrays (incl. bits and 128-bit) and nested containers
+// C14/C15: PRNG::get_random_value reads every leaf from its own range of the generator's stream: the leaves of a random value, in order,
+// are the bytes a second generator with the same seed hands out with get_random_bytes (last byte of a leaf with the unused bits shifted out)
+fn prng_stream(seed: u64) -> serde_json::Value {
+    use ciphercore_base::random::PRNG;
+    use ciphercore_base::data_types::get_size_in_bits;
+    fn leaves(v: &Value, t: &Type, out: &mut Vec<(Type, Vec<u8>)>) {
+        match t {
+            Type::Scalar(_) | Type::Array(_, _) => out.push((t.clone(), v.access_bytes(|b| Ok(b.to_vec())).unwrap())),
+            _ => { let ts = ciphercore_base::data_types::get_types_vector(t.clone()).unwrap(); let kids = v.to_vector().unwrap(); for (k, st) in kids.iter().zip(ts.iter()) { leaves(k, st, out); } }
+        }
+    }
+    let types: Vec<Type> = vec![scalar_type(UINT64), array_type(vec![5], BIT), vector_type(3, scalar_type(UINT64)), vector_type(4, array_type(vec![3], BIT)), vector_type(2, tuple_type(vec![scalar_type(UINT8), scalar_type(INT64)])),
+        tuple_type(vec![scalar_type(INT32), vector_type(3, array_type(vec![2], UINT16)), scalar_type(BIT)]),
+        named_tuple_type(vec![("a".to_owned(), vector_type(2, scalar_type(INT128))), ("b".to_owned(), tuple_type(vec![scalar_type(BIT), scalar_type(BIT)]))]), vector_type(2, vector_type(2, scalar_type(UINT32)))];
+    let mut tried = 0;
+    for (ti, t) in types.iter().enumerate() {
+        for rep in 0..4u64 {
+            tried += 1;
+            let mut sd = [0u8; 16]; sd[..8].copy_from_slice(&(seed.wrapping_mul(1000) + ti as u64 * 10 + rep + 1).to_le_bytes());
+            let v = match PRNG::new(Some(sd)).unwrap().get_random_value(t.clone()) { Ok(v) => v, Err(e) => return json!({"found": true, "routine": "prng_stream", "property": "C14", "input": {"type": format!("{}", t)}, "expected": "a value", "observed": e.to_string(), "what": "PRNG::get_random_value"}) };
+            let mut ls = vec![]; leaves(&v, t, &mut ls);
+            let mut reference = PRNG::new(Some(sd)).unwrap();
+            for (li, (lt, got)) in ls.iter().enumerate() {
+                let bits = get_size_in_bits(lt.clone()).unwrap(); let nb = ((bits + 7) / 8) as usize;
+                let mut want = reference.get_random_bytes(nb).unwrap();
+                if let Some(l) = want.last_mut() { *l >>= 8 * nb as u64 - bits; }
+                if &want != got {
+                    return json!({"found": true, "routine": "prng_stream", "property": "C14", "input": {"type": format!("{}", t), "seed_bytes": sd.to_vec(), "leaf": li},
+                        "expected": format!("leaf {} = the next {} bytes of the stream: {:?}", li, nb, want), "observed": format!("{:?}", got), "what": "PRNG::get_random_value vs. the generator's own byte stream (every leaf a fresh range)"});
+                }
+            }
+        }
+    }
+    json!({"found": false, "routine": "prng_stream", "tried": tried})
+}
+
 fn share_roundtrip(seed: u64) -> serde_json::Value {
     use ciphercore_base::random::PRNG;
     use ciphercore_base::typed_value::TypedValue;
@@ -1563,8 +1703,10 @@ fn main() {
         Some("typing_rejects") => typing_rejects(),
         Some("concat_overflow") => concat_overflow(),
         Some("arith_kernels") => arith_kernels(seed),
+        Some("broadcast_ref") => broadcast_ref(seed),
         Some("cmp_small_widths") => cmp_small_widths(seed),
         Some("share_roundtrip") => share_roundtrip(seed),
+        Some("prng_stream") => prng_stream(seed),
         Some("matmul_ref") => matmul_ref(seed),
         Some("optimizer_equiv") => optimizer_equiv(seed),
         Some("perm_roundtrip") => perm_roundtrip(seed),
@@ -1577,6 +1719,7 @@ fn main() {
         Some("prf_purity") => prf_purity(seed),
         Some("adder_small_widths") => adder_small_widths(seed),
         Some("clip_small_widths") => clip_small_widths(seed),
+        Some("join_ref") => join_ref(seed),
         Some("longdiv_ref") => longdiv_ref(seed),
         Some("reduce_ref") => reduce_ref(seed),
         Some("inline_equiv") => inline_equiv(seed),
